@@ -16,7 +16,7 @@ from model import (gen_addr, conf_quote, wellshaped, SVC_TYPES, BOOL_TRUE, BOOL_
 WORDCH = "abcdefghijklmnopqrstuvwxyzABCDEFGHIJKLMNOPQRSTUVWXYZ0123456789-_[]{}|^`"
 HOSTCH = "abcdefghijklmnopqrstuvwxyz0123456789-"
 SVC_POOL = ["login.example.org", "Login2.Example.NET", "bot.example.org", "combo.example.org",
-            "ipr.example.org", "x.y", "drones-r-us.example.com"]
+            "ipr.example.org", "x.y", "drones-r-us.example.com", "x.y.z", "login.example"]
 FAULT_KINDS = ["seg", "rd_eagain", "rd_eintr", "xr_lost", "xr_dup", "xr_stale", "xr_forged",
                "xr_unknown_svc", "xr_not_awaited", "xr_unlinked", "xr_malformed", "xr_notfinal",
                "cli_disconnect", "cli_reannounce_live", "cli_registered_early", "cli_hurry",
@@ -389,10 +389,10 @@ class Gen:
             op = {"op": "xreply", "cid": cid, "inst": "cur", "svc": r.choice(svcs), "kind": kind, "text": text}
             if f == "xr_stale":
                 op["cid"] = r.choice(self.ids)
-                op["inst"] = "prev"
+                op["inst"] = r.choice(["prev", "prev", "prev:1", "prev:2", "prev:5"])
             elif f == "xr_forged":
                 op["inst"] = "forged:" + r.choice(["nounderscore", "trail", "nonhex", "empty", "serial+1", "serial-1",
-                                                   "otherid", "under2", "noserial"])
+                                                   "otherid", "under2", "noserial", "serial-trunc", "serial-extend", "id-extend"])
             elif f == "xr_unknown_svc":
                 op["svc"] = r.choice(["unknown.example.org", op["svc"] + ".", op["svc"][:-1], op["svc"].swapcase()])
             elif f == "xr_malformed":
@@ -492,6 +492,12 @@ def forge(tag, how, w, cid):
             return "%s_%x" % (a, max(0, int(b, 16) - 1))
     except ValueError:
         return tag + "q"
+    if how == "serial-trunc":
+        return a + "_" + b[:-1] if len(b) > 1 else a + "_" + b + "0"
+    if how == "serial-extend":
+        return tag + "0"
+    if how == "id-extend":
+        return a + "1_" + b      # (never a + "0": "00_4" is read as id 0 by a lenient number parser - rule 3)
     if how == "otherid":
         others = [c for c in sorted(w.live) if c != cid]
         o = others[0] if others else 12345
@@ -540,11 +546,11 @@ class Exec:
             tag = None
             if inst == "cur":
                 tag = cur.tag if cur else None
-            elif inst == "prev":
-                for i in reversed(w.all):
-                    if i.cid == cid and i.ended is not None and i.tag:
-                        tag = i.tag
-                        break
+            elif inst == "prev" or inst.startswith("prev:"):
+                k = int(inst[5:]) if inst.startswith("prev:") else 0
+                cands = [i.tag for i in reversed(w.all) if i.cid == cid and i.ended is not None and i.tag]
+                if cands:
+                    tag = cands[min(k, len(cands) - 1)]
             elif inst.startswith("forged:"):
                 base = cur.tag if cur and cur.tag else next((i.tag for i in reversed(w.all) if i.tag), None)
                 tag = forge(base, inst[7:], w, cid)
